@@ -130,12 +130,13 @@ func (m *encMethod) argsOf(n uint64, out []int64) {
 // ---------------------------------------------------------------- calling the real code
 
 type encCaller struct {
-	m    *encMethod
-	buf  []byte
-	text bool
-	em   *asm.Emitter
-	fn   interface{}
-	rv   reflect.Value
+	m              *encMethod
+	buf            []byte
+	text           bool
+	em             *asm.Emitter
+	fn             interface{}
+	rv             reflect.Value
+	nfresh, ncalls int
 }
 
 type encObs struct {
@@ -155,9 +156,15 @@ func newEncCaller(m *encMethod, text bool) *encCaller {
 	return c
 }
 
+// bases of the successive emitters of one caller: the second and third put the first instructions across a bank end
+// ($00FFFF -> $010000, $7EFFFF -> $7F0000), the fourth across the end of the 24-bit space: PC() is a linear address and
+// must advance by exactly the instruction length there as well
+var encBases = []uint32{0x008000, 0x00FFFB, 0x7EFFFD, 0xFFFFFC}
+
 func (c *encCaller) fresh() {
 	c.em = asm.NewEmitter(c.buf, c.text)
-	c.em.SetBase(0x008000)
+	c.em.SetBase(encBases[c.nfresh%len(encBases)])
+	c.nfresh++
 	c.rv = reflect.ValueOf(c.em).MethodByName(c.m.name)
 	c.fn = c.rv.Interface()
 }
@@ -205,8 +212,9 @@ func (c *encCaller) invoke(args []int64) {
 }
 
 func (c *encCaller) call(fl uint8, args []int64, o *encObs) {
-	if c.em.Len()+16 > len(c.buf) || (c.text && c.em.Len() > 2048) {
-		c.fresh()
+	c.ncalls++
+	if c.em.Len()+16 > len(c.buf) || (c.text && c.em.Len() > 2048) || c.ncalls == 2 || c.ncalls == 4 || c.ncalls == 6 {
+		c.fresh() // the early refreshes walk every caller through all of encBases, however few calls it gets
 	}
 	em := c.em
 	em.AssumeREP(0xFF)
